@@ -496,11 +496,31 @@ func armsJustified(c ssa.CallInstruction) bool {
 		if !isCmdType(a.Type()) {
 			continue
 		}
-		phi, ok := a.(*ssa.Phi)
-		if !ok {
+		var arms []ssa.Value
+		switch x := a.(type) {
+		case *ssa.Phi:
+			arms = x.Edges
+		case *ssa.Call:
+			// the tail to send again is computed by an unexported helper of the package: its returns are the arms
+			h := x.Call.StaticCallee()
+			if h == nil || h.Blocks == nil || isExportedName(h.Name()) || c.Parent() == nil || h.Pkg != c.Parent().Pkg {
+				return false
+			}
+			for _, b := range h.Blocks {
+				if ret, isr := b.Instrs[len(b.Instrs)-1].(*ssa.Return); isr && len(ret.Results) == 1 {
+					arms = append(arms, ret.Results[0])
+				}
+			}
+			if len(arms) == 0 {
+				return false
+			}
+		default:
 			return false
 		}
-		for _, e := range phi.Edges {
+		for _, e := range arms {
+			if IsNilConst(e) {
+				continue
+			}
 			sl, ok := e.(*ssa.Slice)
 			if !ok {
 				return false
